@@ -37,6 +37,7 @@ def main():
     # optimise() and validate() take no document: for a given rule text they are one concrete computation, run natively
     # (catch_unwind) for *every* template of the tier under all 16 switch combinations, not only for the thinned set
     every = [(name, templates.render(rule)) for _, name, rule in templates.select(ck.tier, ck.seed)]
+    every += [('limits/' + k, v) for k, v in templates.limit_rules().items()]
     ck.extra['templates_optimise_sweep'] = len(every)
     sweep = [('@optimise-sweep', every[i::6]) for i in range(6)]
     ck.run_units(sweep + [('@cache-keys', None)] + [('@conditions', n) for n in range(1, 5)] + [(name, templates.render(rule)) for _, name, rule in tpl], run_unit)
